@@ -10,6 +10,8 @@ type classBounds struct {
 	Slots        []string `json:"slots"`             // slot choices of a write
 	FarWrites    int   `json:"far_slot_up_to_writes"` // the slot "far" (beyond the memdb write window) only in histories up to this length
 	ReopenWrites int   `json:"reopen_up_to_writes"`   // a reopen (~0.5 s) only in histories up to this length
+	// histories up to this length are also run with each of the five one-field metrics
+	OneFieldWrites int `json:"one_field_metric_up_to_writes"`
 }
 
 type bounds struct {
@@ -22,12 +24,12 @@ func boundsOf(tier string) bounds {
 	all := []string{"same", "next", "prev", "fam2", "far"}
 	if tier == "thorough" {
 		return bounds{
-			One: classBounds{Slots: all, MaxWrites: 5, MaxGapOps: []int{0, 3, 3, 3, 3, 2}, FarWrites: 4, ReopenWrites: 3},
-			Two: classBounds{Slots: all, MaxWrites: 4, MaxGapOps: []int{0, 3, 3, 3, 1}, FarWrites: 2, ReopenWrites: 3}}
+			One: classBounds{Slots: all, MaxWrites: 5, MaxGapOps: []int{0, 3, 3, 3, 3, 2}, FarWrites: 4, ReopenWrites: 3, OneFieldWrites: 3},
+			Two: classBounds{Slots: all, MaxWrites: 4, MaxGapOps: []int{0, 3, 3, 3, 1}, FarWrites: 2, ReopenWrites: 3, OneFieldWrites: 2}}
 	}
 	return bounds{
-		One: classBounds{Slots: all, MaxWrites: 4, MaxGapOps: []int{0, 2, 2, 2, 1}, FarWrites: 3, ReopenWrites: 2},
-		Two: classBounds{Slots: []string{"same", "next", "fam2"}, MaxWrites: 3, MaxGapOps: []int{0, 2, 2, 2}, FarWrites: 0, ReopenWrites: 2}}
+		One: classBounds{Slots: all, MaxWrites: 4, MaxGapOps: []int{0, 2, 2, 2, 1}, FarWrites: 3, ReopenWrites: 2, OneFieldWrites: 2},
+		Two: classBounds{Slots: []string{"same", "next", "fam2"}, MaxWrites: 3, MaxGapOps: []int{0, 2, 2, 2}, FarWrites: 0, ReopenWrites: 2, OneFieldWrites: 2}}
 }
 
 // gap operations that may follow a write
@@ -128,6 +130,17 @@ func forEachCase(b bounds, emit func(Case) bool) {
 					if !emit(Case{Steps: n.steps}) {
 						return false
 					}
+					ofw := b.One.OneFieldWrites
+					if n.usesB {
+						ofw = b.Two.OneFieldWrites
+					}
+					if n.writes <= ofw && n.reopens == 0 {
+						for _, ft := range fieldTypes {
+							if !emit(Case{Steps: n.steps, Schema: ft}) {
+								return false
+							}
+						}
+					}
 					if !rec(n) {
 						return false
 					}
@@ -197,7 +210,7 @@ func menuFor(c Case) []Query {
 	if c.Menu == "extra" {
 		return menuCache["extra"]
 	}
-	key := "1"
+	key := "1" + c.Schema
 	if twoFam {
 		key = "2"
 	}
@@ -208,6 +221,15 @@ func menuFor(c Case) []Query {
 		return q
 	}
 	multi, single, all := selectLists()
+	if c.Schema != "" {
+		// a one-field metric: the bare reference, each supported function, and all functions at once
+		multi, single, all = nil, nil, nil
+		multi = append(multi, []Sel{{F: c.Schema}})
+		for _, fn := range supportedFuncs[c.Schema] {
+			multi = append(multi, []Sel{{F: c.Schema, Fn: fn}})
+			all = append(all, Sel{F: c.Schema, Fn: fn})
+		}
+	}
 	type cg struct {
 		cond string
 		gb   bool
@@ -230,9 +252,11 @@ func menuFor(c Case) []Query {
 			}
 		}
 	}
-	for iv := range intervals {
-		for _, x := range cgs {
-			out = append(out, Query{Sels: all, Range: 0, Ivl: iv, Cond: x.cond, GB: x.gb})
+	if len(all) > 1 {
+		for iv := range intervals {
+			for _, x := range cgs {
+				out = append(out, Query{Sels: all, Range: 0, Ivl: iv, Cond: x.cond, GB: x.gb})
+			}
 		}
 	}
 	sr := 0
